@@ -17,7 +17,14 @@ import (
 var (
 	vclockOnce sync.Once
 	vclockNS   atomic.Int64
+	// vstalls counts heartbeats that took longer than vclockStallBeat of wall
+	// time (the process, or at least its timers, were not served for that
+	// long).  A timing assertion with a tight slack is only evaluated over a
+	// window in which this counter did not move.
+	vstalls atomic.Int64
 )
+
+const vclockStallBeat = 20 * time.Millisecond
 
 const vclockMaxBeat = 5 * time.Millisecond
 
@@ -28,6 +35,9 @@ func vnow() time.Duration {
 				t0 := time.Now()
 				time.Sleep(500 * time.Microsecond)
 				d := time.Since(t0)
+				if d > vclockStallBeat {
+					vstalls.Add(1)
+				}
 				if d > vclockMaxBeat {
 					d = vclockMaxBeat
 				}
